@@ -7,6 +7,11 @@ Enumerates (exhaustively, smallest first)
   * a product space "rich statement (groups, when-forms, start/await/activate, labels, ...) x
     nesting context" and pairs of rich statements,
   * every `.co` file shipped in the repository (own Colang version, imports resolved by the loader),
+  * Colang 1.0 checkpoints: all sequences of label / goto atoms up to a length (several gotos per checkpoint,
+    forward and backward, out of and into nested blocks) in four contexts,
+  * 2.x `when` statements whose case is an or-group with every small control-flow block as case / else body,
+  * every generated 2.x program on each way a flow reaches `State.flow_configs`: the configuration, a further
+    `initialize_state` on the same flow configs, and `AddFlowsAction` on a running state,
 and model-checks each compiled flow: explicit-state exploration of its control-flow graph
 (vf/props/c12_cfg.py).  The abstraction is bound to the implementation by running the
 generated 2.x programs on the real interpreter with a logging wrapper around the
@@ -25,7 +30,7 @@ from vf.engines import v2x
 from nemoguardrails.colang import parse_colang_file
 from nemoguardrails.colang.v2_x.runtime import statemachine as sm
 from nemoguardrails.colang.v2_x.runtime.flows import State
-from nemoguardrails.colang.v2_x.runtime.runtime import create_flow_configs_from_flow_list
+from nemoguardrails.colang.v2_x.runtime.runtime import RuntimeV2_x, create_flow_configs_from_flow_list
 
 from vf.props import c12_cfg as G
 from vf.props import c12_dyn as D
@@ -40,10 +45,12 @@ TIERS = {
     "quick": dict(
         v2_bound=5, v2_dyn_all=5, v2_dyn_stride={}, v1_bound=6, kmax=3,
         rich_dyn=True, pairs=False, files_stride=1, depth=4, max_steps=120, budget_s=70,
+        goto_len=5, whenor_body=2, paths_stride={},
     ),
     "thorough": dict(
         v2_bound=7, v2_dyn_all=5, v2_dyn_stride={6: 16, 7: 256}, v1_bound=7, kmax=4,
         rich_dyn=True, pairs=True, files_stride=1, depth=5, max_steps=400, budget_s=17 * 60,
+        goto_len=6, whenor_body=3, paths_stride={7: 8},
     ),
 }
 CHUNK = 400
@@ -86,10 +93,140 @@ def compile_v2(source=None, flows=None):
     return st
 
 
-def check_v2_state(acc, st, origin, source, size, dyn=None, skip_helpers=True, file_rel=None):
+# --------------------------------------------------------------------------- the other loader paths
+# A flow reaches `State.flow_configs` on three ways:
+#   (a) configuration: create_flow_configs_from_flow_list + initialize_state              (compile_v2)
+#   (b) every further state of a runtime: `State(flow_configs=dict(runtime.flow_configs))` + initialize_state
+#       runs initialize_flow again on the SAME FlowConfig objects (RuntimeV2_x.process_events)   (reinit_v2)
+#   (c) while the bot runs: RuntimeV2_x._add_flows_action(state, config=<source>) (AddFlowsAction: flows the
+#       LLM generates, flows an application loads)                                          (add_at_runtime)
+# The compiled flow has to be closed whichever way it came.
+ADDED_MAIN = "vfmain"
+HOST_SOURCE = "flow main\n  match VfNeverEvent()\n"
+_RT = {}
+
+
+def runtime_host():
+    """one RuntimeV2_x on a minimal 2.x configuration (built in the parent, inherited by the workers)"""
+    if "rt" not in _RT:
+        from nemoguardrails import RailsConfig
+        with warnings.catch_warnings():
+            warnings.simplefilter("ignore")
+            cfg = RailsConfig.from_content(colang_content=HOST_SOURCE, yaml_content='colang_version: "2.x"\n')
+            _RT["cfg"] = cfg
+            _RT["rt"] = RuntimeV2_x(cfg)
+    return _RT["rt"], _RT["cfg"]
+
+
+def _drive(coro):
+    """run a coroutine that never really suspends"""
+    try:
+        coro.send(None)
+    except StopIteration as stop:
+        return stop.value
+    coro.close()
+    raise RuntimeError("the coroutine suspended")
+
+
+def reinit_v2(st):
+    """(b): a further state on the same flow configs"""
+    st2 = State(context={}, flow_states={}, flow_configs=dict(st.flow_configs))
+    sm.initialize_state(st2)
+    return st2
+
+
+def rename_main(source):
+    """the program with its main flow renamed (a flow `main` exists in every state already)"""
+    if source.count("flow main\n") != 1:
+        raise ValueError("no unique main flow")
+    return source.replace("flow main\n", f"flow {ADDED_MAIN}\n")
+
+
+def add_at_runtime(source):
+    """(c): fresh state of the host runtime, then every flow of `source` through AddFlowsAction.
+    returns (state, names of the flows added)"""
+    rt, cfg = runtime_host()
+    v2x.UIDS.n = 0
+    v2x.CHOICE.begin([])
+    st = State(context={}, flow_states={}, flow_configs=dict(rt.flow_configs), rails_config=cfg)
+    sm.initialize_state(st)
+    added = _drive(rt._add_flows_action(st, config=rename_main(source)))
+    return st, list(added)
+
+
+def check_other_paths(acc, st, origin, source, size, cfgs):
+    explored = {G.fingerprint(st.flow_configs[fid]): c for fid, c in cfgs.items() if fid in st.flow_configs}
+    # (b)
+    try:
+        st2 = reinit_v2(st)
+    except Exception as ex:
+        acc.violation("v2:re-initialisation-raised",
+                      f"[{origin}] initialize_state on the flow configs of an initialised state raised "
+                      f"{type(ex).__name__}: {str(ex)[:120]}",
+                      {"kind": "v2", "path": "reinit", "origin": origin, "source": source, "file": None,
+                       "flow": None, "detail": {}, "size": size})
+    else:
+        acc.add("v2_programs_reinitialised")
+        check_v2_state(acc, st2, origin + ":re-initialised", source, size, None, path="reinit", explored=explored)
+    # (c)
+    try:
+        st3, added = add_at_runtime(source)
+    except Exception as ex:   # the run-time loader refuses it: outside the property
+        acc.add("v2_programs_rejected_by_runtime_loader")
+        acc.reject.setdefault(f"AddFlowsAction {type(ex).__name__}: {str(ex)[:70]}", source)
+        return
+    acc.add("v2_programs_added_at_runtime")
+    acc.add("v2_flows_added_at_runtime", len(added))
+    if ADDED_MAIN in st3.flow_configs and not any(x["kind"] == "v2-added-at-runtime" for x in acc.samples):
+        fc = st3.flow_configs[ADDED_MAIN]
+        if len(fc.element_labels) >= 2:
+            acc.samples.append({
+                "kind": "v2-added-at-runtime", "origin": origin, "program": source, "flows_added": added,
+                "flow": ADDED_MAIN, "elements": len(fc.elements), "labels_in_table": len(fc.element_labels),
+            })
+    check_v2_state(acc, st3, origin + ":added-at-runtime", source, size, None, path="added", only=set(added),
+                   explored=explored)
+
+
+PATH_SUFFIX = {None: "", "reinit": "@re-initialised", "added": "@AddFlowsAction"}
+
+
+def check_v2_state(acc, st, origin, source, size, dyn=None, skip_helpers=True, file_rel=None, path=None, only=None,
+                   explored=None):
+    """`explored` (fingerprint -> Cfg): compiled forms of this program that were model-checked on the
+    configuration path; a flow that arrives with the same compiled form on another path has the same graph
+    (only counted then), any other form is explored."""
     cfgs = {}
     clean = True
     for fid, fc in st.flow_configs.items():
+        if only is not None and fid not in only:
+            continue
+        if explored is not None:
+            if skip_helpers and fid in HELPER_FLOWS:
+                continue
+            if file_rel is not None and fid == "main" and getattr(fc, "source_file", None) in ("", None):
+                continue
+            fp = G.fingerprint(fc)
+            cfg = explored.get(fp)
+            if cfg is not None:
+                acc.add("v2_flows_checked")
+                acc.add("v2_flows_checked_" + path)
+                acc.add(f"v2_flows_{path}_same_compiled_form_as_explored")
+                if acc.c["v2_flows_checked"] % 32 == 0:
+                    # keep the shortcut honest: explore anyway, the graph must be the same
+                    chk = G.explore(fc)
+                    same = (len(chk.states) == len(cfg.states) and chk.edges == cfg.edges
+                            and sorted(q.sig for q in chk.problems) == sorted(q.sig for q in cfg.problems))
+                    if not same:
+                        raise AssertionError(f"c12: equal fingerprints, different graphs ({origin}, flow {fid})")
+                    acc.add("v2_same_form_shortcuts_verified_by_exploration")
+                for p in cfg.problems:
+                    acc.violation(
+                        p.sig + PATH_SUFFIX[path], f"[{origin}] {p.what}",
+                        {"kind": "v2", "path": path, "origin": origin, "source": source, "file": file_rel,
+                         "flow": fid, "detail": p.detail, "size": size})
+                continue
+            acc.add(f"v2_flows_{path}_compiled_form_differs_explored_separately")
         cfg = G.explore(fc)
         cfgs[fid] = cfg
         if skip_helpers and fid in HELPER_FLOWS:
@@ -97,6 +234,17 @@ def check_v2_state(acc, st, origin, source, size, dyn=None, skip_helpers=True, f
         if file_rel is not None and fid == "main" and getattr(fc, "source_file", None) in ("", None):
             continue
         acc.add("v2_flows_checked")
+        if path is not None:
+            acc.add("v2_flows_checked_" + path)
+        ndup = G.duplicate_labels(fc)
+        if ndup:
+            # informational (not part of the property): the shadowed copies are dead code when no abstract
+            # state sits on them
+            acc.add("v2_flows_with_a_label_defined_twice")
+            reach = {st_[0] for st_ in cfg.proj}
+            sh = G.shadowed_label_positions(fc)
+            acc.add("v2_shadowed_label_copies", len(sh))
+            acc.add("v2_shadowed_label_copies_reachable_in_graph", sum(1 for i in sh if i in reach))
         if file_rel is not None:
             acc.c.setdefault("shipped_flows_distinct", set()).add(("2.x", fc.source_file, fid))
         acc.add("states", len(cfg.states))
@@ -110,9 +258,9 @@ def check_v2_state(acc, st, origin, source, size, dyn=None, skip_helpers=True, f
         for p in cfg.problems:
             clean = False
             acc.violation(
-                p.sig,
+                p.sig + PATH_SUFFIX[path],
                 f"[{origin}] {p.what}",
-                {"kind": "v2", "origin": origin, "source": source, "file": file_rel, "flow": fid,
+                {"kind": "v2", "path": path, "origin": origin, "source": source, "file": file_rel, "flow": fid,
                  "detail": p.detail, "size": size},
             )
     if dyn:
@@ -142,7 +290,7 @@ def check_v2_state(acc, st, origin, source, size, dyn=None, skip_helpers=True, f
     return cfgs
 
 
-def do_v2_program(acc, source, origin, size, dyn):
+def do_v2_program(acc, source, origin, size, dyn, paths=True):
     acc.add("v2_programs_generated")
     try:
         flows = list(v2x.parse_program(source)["flows"])
@@ -153,7 +301,9 @@ def do_v2_program(acc, source, origin, size, dyn):
         acc.reject.setdefault(key, source)
         return
     acc.add("v2_programs_checked")
-    check_v2_state(acc, st, origin, source, size, dyn)
+    cfgs = check_v2_state(acc, st, origin, source, size, dyn)
+    if paths:
+        check_other_paths(acc, st, origin, source, size, cfgs)
     if "while" in source or "when" in source:
         # a second runtime built from the same parse result (two LLMRails objects on one RailsConfig):
         # the compiled flows of the second compilation must be closed as well
@@ -174,9 +324,10 @@ def do_v1_flows(acc, flows, origin, source, size, file_rel=None):
         acc.add("v1_flows_checked")
         if file_rel is not None:
             acc.c.setdefault("shipped_flows_distinct", set()).add(("1.0", file_rel, f["id"]))
-        if not any(x["kind"] == ("v1-file" if file_rel else "v1-program") for x in acc.samples) and n > 3:
+        skind = "v1-file" if file_rel else ("v1-goto-program" if origin.startswith("v1goto") else "v1-program")
+        if not any(x["kind"] == skind for x in acc.samples) and n > (5 if skind == "v1-goto-program" else 3):
             acc.samples.append({
-                "kind": "v1-file" if file_rel else "v1-program", "origin": origin, "program": source,
+                "kind": skind, "origin": origin, "program": source,
                 "flow": f["id"], "elements": n, "offset_edges": edges, "element_types": types,
             })
         acc.add("states", n)
@@ -242,6 +393,15 @@ def do_file(acc, rel):
     if version == "2.x":
         cfgs = check_v2_state(acc, st, f"file:{rel}", None, 0, dyn=None, skip_helpers=False, file_rel=rel)
         try:
+            st_r = reinit_v2(st)
+        except Exception as ex:
+            acc.violation("v2:re-initialisation-raised", f"[file:{rel}] initialize_state on the flow configs of an initialised state raised {type(ex).__name__}: {str(ex)[:120]}",
+                          {"kind": "v2", "path": "reinit", "origin": f"file:{rel}", "source": None, "file": rel, "flow": None, "detail": {}, "size": 0})
+        else:
+            acc.add("v2_programs_reinitialised")
+            check_v2_state(acc, st_r, f"file:{rel}:re-initialised", None, 0, dyn=None, skip_helpers=False, file_rel=rel, path="reinit",
+                           explored={G.fingerprint(st.flow_configs[fid]): c for fid, c in cfgs.items()})
+        try:
             st2 = compile_v2(flows=flows)
         except Exception as ex:
             acc.violation("v2:second-compilation-raised", f"[file:{rel}] compiling the same parsed flows a second time raised {type(ex).__name__}: {str(ex)[:120]}",
@@ -268,6 +428,15 @@ def rich(kmax):
     return _RICH_CACHE[kmax]
 
 
+_WHENOR_CACHE = {}
+
+
+def whenor(max_body):
+    if max_body not in _WHENOR_CACHE:
+        _WHENOR_CACHE[max_body] = list(gen.when_or_family(max_body))
+    return _WHENOR_CACHE[max_body]
+
+
 def task_dyn(key):
     # the interpreter binding for the 3-branch groups that end the flow or sit in a loop
     return {"depth": 4, "max_steps": 150} if key[0] == 3 and max(key[1]) <= 2 else None
@@ -276,12 +445,13 @@ def task_dyn(key):
 def work(task):
     kind = task[0]
     acc = Acc()
+    t0 = time.process_time()
     if kind == "v2ctl":
-        _, n, lo, hi, stride, dynp = task
+        _, n, lo, hi, stride, dynp, pstride = task
         blocks = gen.V2_BLOCKS(n, False)
         for i in range(lo, hi):
             dyn = dynp if (stride and i % stride == 0) else None
-            do_v2_program(acc, gen.render_v2(blocks[i]), f"v2ctl:n={n}:#{i}", n, dyn)
+            do_v2_program(acc, gen.render_v2(blocks[i]), f"v2ctl:n={n}:#{i}", n, dyn, paths=(i % pstride == 0))
     elif kind == "v2rich":
         _, kmax, ctx, lo, hi, dynp = task
         rs = rich(kmax)
@@ -318,12 +488,30 @@ def work(task):
                 do_v1_program(acc, src, f"v1when:{key}", sum(key[1]))
             else:
                 do_v2_program(acc, src, f"v2when:{key}", sum(key[1]), task_dyn(key))
+    elif kind == "v1goto":
+        _, length, lo, hi = task
+        seqs = gen.goto_sequences(length)
+        for i in range(lo, hi):
+            for ctx in gen.GOTO_CONTEXTS:
+                acc.add("v1_goto_programs")
+                acc.add("v1_goto_statements", gen.n_gotos(seqs[i]))
+                do_v1_program(acc, gen.render_goto_v1(seqs[i], ctx), f"v1goto:{ctx}:{'.'.join(seqs[i])}", length)
+    elif kind == "whenor":
+        _, max_body, lo, hi, dynp = task
+        fam = whenor(max_body)
+        for i in range(lo, hi):
+            key, src = fam[i]
+            acc.add("v2_when_or_group_programs")
+            # interpreter binding for the one-case forms (the case body is emitted once per or-group there too)
+            do_v2_program(acc, src, "v2whenor:" + ":".join(str(x) for x in key), key[1] + 2,
+                          dynp if not key[4] else None)
     elif kind == "file":
         do_file(acc, task[1])
     else:
         raise ValueError(task)
     r = acc.result()
     r["task"] = task[:2] if kind != "file" else ("file",)
+    r["cpu"] = time.process_time() - t0
     return r
 
 
@@ -341,6 +529,11 @@ def tasks(tier):
     for i, rel in enumerate(files):
         if i % t["files_stride"] == 0:
             out.append(("file", rel))
+    for length in range(1, t["goto_len"] + 1):
+        for lo, hi in _chunks(len(gen.goto_sequences(length)), CHUNK):
+            out.append(("v1goto", length, lo, hi))
+    for lo, hi in _chunks(len(whenor(t["whenor_body"])), 32):
+        out.append(("whenor", t["whenor_body"], lo, hi, {"depth": 3, "max_steps": t["max_steps"] // 2}))
     for n in range(1, t["v1_bound"] + 1):
         for lo, hi in _chunks(len(gen.V1_BLOCKS(n, False)), CHUNK * 8):
             out.append(("v1ctl", n, lo, hi))
@@ -348,7 +541,7 @@ def tasks(tier):
         stride = 1 if n <= t["v2_dyn_all"] else t["v2_dyn_stride"].get(n, 0)
         size = CHUNK // 8 if stride == 1 else CHUNK
         for lo, hi in _chunks(len(gen.V2_BLOCKS(n, False)), size):
-            out.append(("v2ctl", n, lo, hi, stride, dynp))
+            out.append(("v2ctl", n, lo, hi, stride, dynp, t["paths_stride"].get(n, 1)))
     m = len(rich(t["kmax"]))
     for ctx in gen.V2_CONTEXTS:
         for lo, hi in _chunks(m, 24):
@@ -364,6 +557,7 @@ def tasks(tier):
 def run(rep, tier):
     t = TIERS[tier]
     D.install()
+    runtime_host()     # built once here, the workers inherit it
     tk, nfiles = tasks(tier)
     planned = {}
     for x in tk:
@@ -377,6 +571,7 @@ def run(rep, tier):
     deadline = time.time() + t["budget_s"]
     done = 0
     done_by_kind = {}
+    cpu_by_kind = {}
     viol = []
     per_sig = {}
     rejects = {}
@@ -384,8 +579,9 @@ def run(rep, tier):
     for res in par.pmap(work, tk, chunksize=1, deadline=deadline):
         done += 1
         k = res["task"][0]
-        key = k if k not in ("v2ctl", "v1ctl") else f"{k}:n={res['task'][1]}"
+        key = k if k not in ("v2ctl", "v1ctl", "v1goto") else f"{k}:n={res['task'][1]}"
         done_by_kind[key] = done_by_kind.get(key, 0) + 1
+        cpu_by_kind[key] = cpu_by_kind.get(key, 0.0) + res["cpu"]
         c = dict(res["counts"])
         for mk in ("max_cfg_states_per_flow", "max_dyn_depth"):
             if mk in c:
@@ -399,12 +595,13 @@ def run(rep, tier):
         for smp in res["samples"]:
             if sample_kinds.get(smp["kind"], 0) < 2:
                 sample_kinds[smp["kind"]] = sample_kinds.get(smp["kind"], 0) + 1
-                rep.sample(smp, limit=8)
+                rep.sample(smp, limit=12)
     planned_by_kind = {}
     for x in tk:
-        key = x[0] if x[0] not in ("v2ctl", "v1ctl") else f"{x[0]}:n={x[1]}"
+        key = x[0] if x[0] not in ("v2ctl", "v1ctl", "v1goto") else f"{x[0]}:n={x[1]}"
         planned_by_kind[key] = planned_by_kind.get(key, 0) + 1
     complete = done == len(tk)
+    rep.set("worker_cpu_seconds_by_family", {k: round(v, 1) for k, v in sorted(cpu_by_kind.items())})
     rep.set("tasks_planned", len(tk))
     rep.set("tasks_done", done)
     rep.set("exhaustive", bool(complete))
@@ -413,7 +610,10 @@ def run(rep, tier):
         rep.set("cap_hit", f"time budget {t['budget_s']}s: {done}/{len(tk)} chunks; fully covered: {full}")
     for k in ("states", "transitions", "traces_validated_against_impl"):
         rep.cov.setdefault(k, 0)
-    rep.set("programs", {
+    # (the evidence schema wants `programs` to be a number: programs and files that were compiled and checked)
+    rep.set("programs", rep.cov.get("v2_programs_checked", 0) + rep.cov.get("v1_programs_checked", 0)
+            + rep.cov.get("files_checked", 0))
+    rep.set("program_counts", {
         "v2_generated": rep.cov.get("v2_programs_generated", 0),
         "v2_checked": rep.cov.get("v2_programs_checked", 0),
         "v2_rejected_by_loader": rep.cov.get("v2_programs_rejected_by_loader", 0),
@@ -426,7 +626,7 @@ def run(rep, tier):
         "shipped_files_skipped_rejected_by_loader": rep.cov.get("files_skipped_rejected_by_loader", 0),
     })
     rep.set("bounds", {k: t[k] for k in ("v2_bound", "v1_bound", "kmax", "v2_dyn_all", "v2_dyn_stride",
-                                          "depth", "max_steps", "pairs")})
+                                          "depth", "max_steps", "pairs", "goto_len", "whenor_body", "paths_stride")})
     rep.set("loader_rejections", {k: (v if len(str(v)) < 300 else str(v)[:300]) for k, v in
                                   sorted(rejects.items())[:40]})
     rep.set("violation_occurrences_by_signature", per_sig)
@@ -439,6 +639,19 @@ def run(rep, tier):
         f"{len(gen.V2_CONTEXTS)} nesting contexts; thorough also every ordered pair of rich statements (kmax 3)",
         "1.0 control grammar: all blocks of <=N nodes over {user | bot | if[/else] | while | when[/else when] | "
         "return | break | continue}; rich statements x contexts and all ordered pairs",
+        f"1.0 checkpoints: all sequences of <= {t['goto_len']} atoms over {{statement | label a | checkpoint b | goto a | "
+        "go to b | if: goto a | if: goto b | if: label a}} (a checkpoint defined at most once, every goto to a defined "
+        f"checkpoint, before or after it, any number of gotos per checkpoint) in each of {len(gen.GOTO_CONTEXTS)} contexts",
+        f"2.x `when` whose case is an or-group (4 group specs x one/two cases x with/without else) with every block of "
+        f"the control grammar of <= {t['whenor_body']} nodes as case body and as else body, at top level and in a loop",
+        "loader paths (2.x), every generated program (control grammar sizes in bounds.paths_stride: every k-th) on all three: (a) configuration (flow list -> flow configs -> "
+        "initialize_state), (b) initialize_state once more on the same flow configs (what the runtime does for every "
+        "further state), (c) every flow of the program loaded into a running state with RuntimeV2_x._add_flows_action "
+        "(AddFlowsAction; main renamed). A flow that arrives on (b)/(c) with the same compiled form (elements and label "
+        "table equal up to renaming of generated uids) as the one explored on (a) has the same graph and is only "
+        "counted; any other form is explored. Shipped files: (a) and (b); the second compilation is explored in full",
+        "a label name may be defined by several Label elements (expansion of `when`; counted): the table keeps the "
+        "last one, which is the position every reference denotes",
         "abstract state = (position, failure-handler stack, open scopes, registered fork uids); Goto with the "
         "constant expression \"True\" is always taken, any other expression may go both ways; scopes / "
         "handlers are tracked per path (heads of one flow are not modelled jointly); because EndScope removes "
@@ -468,13 +681,24 @@ def run(rep, tier):
 # =========================================================================== replay
 def replay(rp):
     D.install()
+    runtime_host()
     kind = rp.get("kind")
     print("signature:", rp.get("signature"))
     print("what     :", rp.get("what"))
     if kind in ("v2", "v2dyn"):
-        if rp.get("source") is not None:
+        path = rp.get("path")
+        flow_id = rp["flow"]
+        if rp.get("source") is not None and path == "added":
+            print("program (every flow loaded with AddFlowsAction into a running state, main renamed to "
+                  f"`{ADDED_MAIN}`):\n" + rp["source"])
+            st, added = add_at_runtime(rp["source"])
+            print("flows added:", added)
+        elif rp.get("source") is not None:
             print("program:\n" + rp["source"])
             st = compile_v2(rp["source"])
+            if path == "reinit":
+                print("(initialize_state once more on the same flow configs)")
+                st = reinit_v2(st)
         else:
             print("file:", rp["file"])
             cwd = os.getcwd()
@@ -486,7 +710,13 @@ def replay(rp):
                 st = compile_v2(flows=flows)
             finally:
                 os.chdir(cwd)
-        fc = st.flow_configs[rp["flow"]]
+            if path == "reinit":
+                print("(initialize_state once more on the same flow configs)")
+                st = reinit_v2(st)
+        if flow_id is None:
+            print("expected: no exception; observed: see `what`")
+            return 0
+        fc = st.flow_configs[flow_id]
         cfg = G.explore(fc)
         marks = {p.detail.get("pos") for p in cfg.problems}
         print(f"compiled flow `{rp['flow']}` ({cfg.n} elements, {len(cfg.states)} abstract states):")
